@@ -6,7 +6,8 @@ from inspect import getfullargspec
 import numpy as np
 
 from glue.core.contracts import contract, ContractsMeta
-from glue.core.coordinate_helpers import (dependent_axes, default_world_coords,
+from glue.core.coordinate_helpers import (dependent_axes, world_axis_dependencies,
+                                          default_world_coords,
                                           pixel2world_single_axis,
                                           world2pixel_single_axis)
 from glue.core.subset import InequalitySubsetState
@@ -365,7 +366,10 @@ class CoordinateComponentLink(ComponentLink):
         # to compute a given world coord, and vice versa
         # (e.g., spectral data cubes)
         self.ndim = len(comp_from)
-        self.from_needed = dependent_axes(coords, index)
+        if pixel2world:
+            self.from_needed = world_axis_dependencies(coords, index)
+        else:
+            self.from_needed = dependent_axes(coords, index)
         self._from_all = comp_from
 
         comp_from = [comp_from[i] for i in self.from_needed]
